@@ -917,3 +917,205 @@ Proof.
   split; [apply sort_deps_perm|]. destruct ds as [|d0 t]; auto.
   destruct (N.eqb (r_sys d0) sys_npm) eqn:E; [apply sort_deps_npm_sorted | apply sort_deps_other]; auto.
 Qed.
+
+(* ====================================================================== *)
+(* npm: the latest rule is decided on the package, not on the match *)
+Lemma sort_npm_latest_on_list C O vs pre y post :
+  isort (npm_less O) vs = pre ++ y :: post ->
+  has_latest C y = true -> forallb (fun v => negb (has_latest C v)) post = true ->
+  sort_npm C O vs =
+    if is_pre O y && existsb (fun v => negb (is_pre O v)) vs then pre ++ y :: post else pre ++ post ++ [y].
+Proof.
+  intros Hb Hy Hpost. unfold sort_npm.
+  rewrite (reposition_latest C O _ pre y post Hb Hy Hpost).
+  rewrite (existsb_perm _ _ _ (isort_perm (npm_less O) vs)). rewrite Hb. reflexivity.
+Qed.
+
+Lemma matching_latest_on_package O var c k vs pre y post :
+  N.eqb (pk_sys (vk_pkg k)) sys_npm = true ->
+  pkg_list c (vk_pkg k) = Some vs ->
+  isort (npm_less O) vs = pre ++ y :: post ->
+  has_latest (v_cfg var) y = true -> forallb (fun v => negb (has_latest (v_cfg var) v)) post = true ->
+  let ordered := if is_pre O y && existsb (fun v => negb (is_pre O v)) vs
+                 then pre ++ y :: post else pre ++ post ++ [y] in
+  matching_versions O var c k =
+    Ok (if o_constraint O sys_npm (vk_ver k)
+        then filter (satisfies O sys_npm (vk_ver k)) ordered
+        else firstn 1 (filter (satisfies O sys_npm (vk_ver k)) ordered)).
+Proof.
+  intros Hs Hp Hb Hy Hpost ordered. rewrite matching_spec, Hp. unfold match_requirement. rewrite Hs.
+  rewrite match_npm_spec. rewrite (sort_npm_latest_on_list (v_cfg var) O vs pre y post Hb Hy Hpost).
+  reflexivity.
+Qed.
+
+(* a re-addition without requirements leaves none *)
+Lemma readd_empty_requirements O var ops v :
+  deleted v = false -> requirements_of (run O var (ops ++ [HAdd v []])) (v_key v) = Ok [].
+Proof.
+  intros Hd. rewrite run_requirements_of, last_add_snoc, live_add_HAdd, Hd, vkey_eqb_refl. reflexivity.
+Qed.
+
+Lemma last_add_empty_requirements O var ops k v :
+  last_add ops k = Some (v, []) -> requirements_of (run O var ops) k = Ok [].
+Proof. intros H. rewrite run_requirements_of, H. reflexivity. Qed.
+
+(* examples *)
+Local Open Scope N_scope.
+(* every string parses; a version is a prerelease when it holds a hyphen; versions compare as
+   byte strings; every requirement is a constraint that matches the versions it is a prefix of *)
+Definition pre_oracle : oracle := {|
+  o_parses := fun _ _ => true;
+  o_prerelease := fun _ v => contains [45] v;
+  o_compare := fun _ a b => bytes_compare a b;
+  o_constraint := fun _ _ => true;
+  o_match := fun _ r v => has_prefix r v |}.
+
+Lemma pre_oracle_laws : laws_ok pre_oracle.
+Proof. intros sys. apply core_laws. apply (core_weaken (fun _ => True)); [intros; exact I | apply bytes_core]. Qed.
+
+Definition e_100 : version := mkv sys_npm [97] [49;46;48;46;48] [].                       (* 1.0.0 *)
+Definition e_200a : version := mkv sys_npm [97] [50;46;48;46;48;45;97] [(ver_tags, s_latest)].   (* 2.0.0-a, latest *)
+Definition e_200b : version := mkv sys_npm [97] [50;46;48;46;48;45;98] [].                (* 2.0.0-b *)
+Definition e_hist : list hop := [HAdd e_200b []; HAdd e_100 []; HAdd e_200a []].
+Definition e_req : vkey :=                                                              (* requirement 2: only the prereleases *)
+  {| vk_pkg := {| pk_sys := sys_npm; pk_name := [97] |}; vk_type := vt_requirement; vk_ver := [50] |}.
+
+(* the package has a release (1.0.0), the match has none: 2.0.0-a stays in place.  Decided on the
+   match alone, the tagged prerelease would have been moved last. *)
+Lemma latest_on_package_example :
+  versions_of (run pre_oracle var_repaired e_hist) (vk_pkg e_req) = Ok [e_100; e_200a; e_200b] /\
+  matching_versions pre_oracle var_repaired (run pre_oracle var_repaired e_hist) e_req = Ok [e_200a; e_200b] /\
+  sort_npm cfg_repaired pre_oracle [e_200a; e_200b] = [e_200b; e_200a].
+Proof. repeat split. Qed.
+
+Definition e_dep : reqver :=
+  {| r_key := {| vk_pkg := {| pk_sys := sys_npm; pk_name := [98] |}; vk_type := vt_requirement; vk_ver := [42] |};
+     r_type := vset_empty |}.
+Lemma readd_empty_example :
+  requirements_of (run pre_oracle var_repaired [HAdd e_100 [e_dep]]) (v_key e_100) = Ok [e_dep] /\
+  requirements_of (run pre_oracle var_repaired [HAdd e_100 [e_dep]; HVersions (v_pkg e_100); HAdd e_100 []]) (v_key e_100) = Ok [].
+Proof. split; reflexivity. Qed.
+
+(* npm, repaired client: the stored slice is already in npm order, so a match is a selection
+   from what Versions lists *)
+Lemma versions_npm_fixpoint O var ops p vs :
+  laws_ok O -> v_add var = FixAssignSort -> N.eqb (pk_sys p) sys_npm = true ->
+  Forall (add_parses O) ops -> Forall add_concrete ops ->
+  versions_of (run O var ops) p = Ok vs -> sort_npm (v_cfg var) O vs = vs.
+Proof.
+  intros HL Hv Hs HP HC H. unfold versions_of in H.
+  destruct (pkg_list (run O var ops) p) eqn:E; inversion H; subst; clear H.
+  destruct (run_wf O var ops _ _ E) as [ND FA].
+  pose proof (nodup_ver p vs ND FA (run_conc O var ops HC _ _ E)) as NV.
+  pose proof (run_ord O var HL ops HP _ _ E) as I. rewrite Hs in I. specialize (I Hv).
+  unfold eco_sorted in I. rewrite Hs in I. destruct I as (base & Sb & Ev).
+  assert (Hp : Permutation vs base) by (rewrite Ev; apply reposition_perm).
+  assert (NVb : NoDup (map ver base)) by (eapply Permutation_NoDup; [apply Permutation_map; exact Hp | exact NV]).
+  unfold sort_npm.
+  rewrite (isort_npm_perm_unique O (HL sys_npm) vs base NV Hp).
+  rewrite <- (isort_npm_is_the_sorted_perm O (HL sys_npm) base base NVb (Permutation_refl _) Sb).
+  symmetry. exact Ev.
+Qed.
+
+Lemma matching_selects_from_versions O var ops k vs :
+  laws_ok O -> v_add var = FixAssignSort -> N.eqb (pk_sys (vk_pkg k)) sys_npm = true ->
+  Forall (add_parses O) ops -> Forall add_concrete ops ->
+  versions_of (run O var ops) (vk_pkg k) = Ok vs ->
+  matching_versions O var (run O var ops) k =
+    Ok (if o_constraint O sys_npm (vk_ver k)
+        then filter (satisfies O sys_npm (vk_ver k)) vs
+        else firstn 1 (filter (satisfies O sys_npm (vk_ver k)) vs)).
+Proof.
+  intros HL Hv Hs HP HC H.
+  pose proof (versions_npm_fixpoint O var ops (vk_pkg k) vs HL Hv Hs HP HC H) as Fx.
+  rewrite matching_spec. unfold versions_of in H.
+  destruct (pkg_list (run O var ops) (vk_pkg k)); inversion H; subst.
+  unfold match_requirement. rewrite Hs, match_npm_spec, Fx. reflexivity.
+Qed.
+
+(* the other systems: the stored slice is ascending, so sorting a copy of it (matchRequirement)
+   changes nothing and a match is the selection from what Versions lists *)
+Lemma versions_gen_fixpoint O var ops p vs :
+  laws_ok O -> N.eqb (pk_sys p) sys_npm = false ->
+  Forall (add_parses O) ops -> Forall add_concrete ops ->
+  separated (v_cfg var) O (pk_sys p) vs ->
+  versions_of (run O var ops) p = Ok vs -> sort_versions (v_cfg var) O vs = vs.
+Proof.
+  intros HL Hs HP HC Sep H. unfold versions_of in H.
+  destruct (pkg_list (run O var ops) p) eqn:E; inversion H; subst; clear H.
+  destruct (run_wf O var ops _ _ E) as [ND FA].
+  pose proof (nodup_ver p vs ND FA (run_conc O var ops HC _ _ E)) as NV.
+  pose proof (run_ord O var HL ops HP _ _ E) as I. rewrite Hs in I. destruct I as [Ss Ps].
+  assert (Hsys : Forall (fun v => v_sys v = pk_sys p) vs).
+  { apply Forall_forall. intros v Hv. rewrite Forall_forall in FA. unfold v_sys. rewrite (FA v Hv). reflexivity. }
+  rewrite (sort_versions_gen_eq (v_cfg var) O (pk_sys p) vs Hs Hsys). symmetry.
+  apply (isort_is_the_sorted_perm (gen_parses O (pk_sys p)) (gen_cmp (v_cfg var) O (pk_sys p))
+           (gen_less (v_cfg var) O (pk_sys p)) (gen_cmp_laws (v_cfg var) O (pk_sys p) (HL (pk_sys p)))); auto.
+  - intros; apply gen_less_cmp; auto.
+  - apply gen_separates; auto.
+Qed.
+
+Lemma matching_selects_from_versions_gen O var ops k vs :
+  laws_ok O -> N.eqb (pk_sys (vk_pkg k)) sys_npm = false ->
+  Forall (add_parses O) ops -> Forall add_concrete ops ->
+  separated (v_cfg var) O (pk_sys (vk_pkg k)) vs ->
+  versions_of (run O var ops) (vk_pkg k) = Ok vs ->
+  matching_versions O var (run O var ops) k =
+    Ok (filter (satisfies O (pk_sys (vk_pkg k)) (vk_ver k)) vs).
+Proof.
+  intros HL Hs HP HC Sep H.
+  pose proof (versions_gen_fixpoint O var ops (vk_pkg k) vs HL Hs HP HC Sep H) as Fx.
+  rewrite matching_spec. unfold versions_of in H.
+  destruct (pkg_list (run O var ops) (vk_pkg k)); inversion H; subst.
+  unfold match_requirement. rewrite Hs, match_generic_spec by auto.
+  unfold match_input. destruct (match_sorts (v_cfg var)); [rewrite Fx|]; reflexivity.
+Qed.
+
+(* where the version tagged latest stands in what Versions returns (npm, repaired client) *)
+Lemma versions_latest_position O var ops p vs pre y post :
+  laws_ok O -> v_add var = FixAssignSort -> N.eqb (pk_sys p) sys_npm = true ->
+  Forall (add_parses O) ops -> Forall add_concrete ops ->
+  versions_of (run O var ops) p = Ok vs ->
+  isort (npm_less O) vs = pre ++ y :: post ->
+  has_latest (v_cfg var) y = true -> forallb (fun v => negb (has_latest (v_cfg var) v)) post = true ->
+  vs = if is_pre O y && existsb (fun v => negb (is_pre O v)) vs then pre ++ y :: post else pre ++ post ++ [y].
+Proof.
+  intros HL Hv Hs HP HC H Hb Hy Hpost.
+  rewrite <- (sort_npm_latest_on_list (v_cfg var) O vs pre y post Hb Hy Hpost).
+  symmetry. eapply versions_npm_fixpoint; eauto.
+Qed.
+
+(* the requirement list returned does not remember the order in which it was given *)
+Lemma requirements_order_insensitive O var ops1 ops2 k v1 d1 v2 d2 :
+  last_add ops1 k = Some (v1, d1) -> last_add ops2 k = Some (v2, d2) ->
+  Forall (fun d => r_sys d = sys_npm) d1 -> deps_separated d1 -> Permutation d1 d2 ->
+  requirements_of (run O var ops1) k = requirements_of (run O var ops2) k.
+Proof.
+  intros H1 H2 Hs Sep Hp. rewrite !run_requirements_of, H1, H2.
+  rewrite (sort_deps_perm_unique d1 d2 Hs Sep Hp). reflexivity.
+Qed.
+
+Local Open Scope N_scope.
+Definition mk_dep (name : bytes) (ty : list (Z * bytes)) : reqver :=
+  {| r_key := {| vk_pkg := {| pk_sys := sys_npm; pk_name := name |}; vk_type := vt_requirement; vk_ver := [42] |};
+     r_type := vset_of_pairs ty |}.
+Definition e_d1 : reqver := mk_dep [102;111;111;95;98;97;114] [].           (* foo_bar *)
+Definition e_d2 : reqver := mk_dep [102;111;111;98;97;114] [].              (* foobar *)
+Definition e_d3 : reqver := mk_dep [65] [(dep_dev, [])].                    (* A, development only *)
+Definition e_t1 : reqver := mk_dep [120] [].                                (* x *)
+Definition e_t2 : reqver := mk_dep [98] [(dep_knownas, [120])].             (* b known as x *)
+
+Lemma deps_order_example :
+  deps_separated [e_d3; e_d2; e_d1] /\
+  sort_deps [e_d3; e_d2; e_d1] = [e_d1; e_d2; e_d3] /\ sort_deps [e_d2; e_d1; e_d3] = [e_d1; e_d2; e_d3].
+Proof.
+  split; [|split; reflexivity].
+  intros a b Ha Hb _ Hn. simpl in Ha, Hb.
+  destruct Ha as [<-|[<-|[<-|[]]]], Hb as [<-|[<-|[<-|[]]]]; auto; vm_compute in Hn; discriminate.
+Qed.
+
+(* two requirements shown under one name are not separated: their order is the order given *)
+Lemma deps_ties_witness :
+  dep_cmp e_t1 e_t2 = 0%Z /\ e_t1 <> e_t2 /\
+  sort_deps [e_t1; e_t2] = [e_t1; e_t2] /\ sort_deps [e_t2; e_t1] = [e_t2; e_t1].
+Proof. repeat split. discriminate. Qed.
